@@ -161,15 +161,6 @@ inductive Ctx where
   | top | ptr | elem
   deriving DecidableEq, Repr
 
-/-- Go decides whether a field is exported by its name -/
-def nameExported (n : Text) : Bool :=
-  match n with
-  | c :: _ => c.isUpper
-  | [] => false
-
-/-- representation invariant of a struct field, plus: no unexported embedded field (residual defect R-C05-1) -/
-def fldOK (f : Fld) : Bool := f.exported == nameExported f.name && (f.exported || !f.anon)
-
 def isGoodKey : EV → Bool
   | .prim _ _ n => !n
   | _ => false
@@ -196,7 +187,7 @@ def domEV (c : Ctx) (x : EV) : Bool :=
   | .chan _ _ => c == .top
   | .seq _ _ _ xs => domList xs
   | .map _ ks vs => ks.length == vs.length && nodupKeys ks && ks.all isGoodKey && domVals vs
-  | .struct _ fs vs => fs.length == vs.length && fs.all fldOK && domFields fs vs
+  | .struct _ fs vs => fs.length == vs.length && domFields fs vs
 termination_by structural x
 
 def domList (xs : List EV) : Bool :=
@@ -219,20 +210,13 @@ def domFields (fs : List Fld) (vs : List EV) : Bool :=
 termination_by structural vs
 end
 
-/-- a leaf that `reflect` cannot tell from a Stack / Condition handle: a struct whose only field is unexported
-(residual defect R-C05-2: `valuesEqual` takes it for equal to any Stack or Condition on its right) -/
-def handleLike (e : EV) : Bool :=
-  match strip e with
-  | some (.struct _ [f] _) => !f.exported
-  | _ => false
-
 mutual
 /-- trees the property speaks about: initialised stacks and conditions in default mode (no equality policy),
 any derivative form, any operator (or none), leaves in `domEV` -/
 def inDomain (a : Val) : Bool :=
   match a with
   | .nil => true
-  | .leaf l => domEV .top l.toEV && !handleLike l.toEV
+  | .leaf l => domEV .top l.toEV
   | .stk _ c xs => c.eqf.isNone && [Gen.kind_and, Gen.kind_or, Gen.kind_not, Gen.kind_list, Gen.kind_basic].contains c.kind && inDomainL xs
   | .cnd _ c _ _ ex => c.eqf.isNone && c.kind == Gen.kind_cond && inDomain ex
   | .zstk _ => false
